@@ -41,6 +41,8 @@ void             _dbus_pending_call_set_reply_serial_unlocked    (DBusPendingCal
 DBusConnection * _dbus_pending_call_get_connection_and_lock      (DBusPendingCall    *pending);
 DBusConnection * _dbus_pending_call_get_connection_unlocked      (DBusPendingCall    *pending);
 dbus_bool_t      _dbus_pending_call_get_completed_unlocked       (DBusPendingCall    *pending);
+void             _dbus_pending_call_set_cancelled_unlocked       (DBusPendingCall    *pending);
+dbus_bool_t      _dbus_pending_call_get_cancelled_unlocked       (DBusPendingCall    *pending);
 
 void             _dbus_pending_call_start_completion_unlocked    (DBusPendingCall    *pending);
 void             _dbus_pending_call_finish_completion            (DBusPendingCall    *pending);
